@@ -3,6 +3,7 @@ CONSTANTS
   KNOWN = {}
   Rate <- RateV
   MsPerDay <- MsPerDayV
+  NsPerMs <- NsPerMsV
 INVARIANT Done
 POSTCONDITION Accepted
 CHECK_DEADLOCK FALSE
